@@ -143,6 +143,15 @@ CHECKS = {
             'the POSIX call; empty and over-long paths must be rejected without effect and without sanitizer report; listings must '
             'be complete, exactly-once, resumable from any cookie and restartable; resolvePath is fuzzed in process.',
             'tmpfs directory offsets are stable; the kernel is the reference for errno values.', 'DESIGN.md section 7 C14'),
+    'C15': ('F3 WASI agent + thread-spawn harness (w2c2-translated shared-memory module + wasi.c, ASan/UBSan and TSan builds)',
+            'PBT with choice-sequence shrinking: generated argv/environ vectors with canary-guarded guest buffers, clock sandwich '
+            'against the same host clock, random_get fill/canary oracle over boundary lengths, proc_exit status via a forked '
+            'agent, concurrent thread-spawn with an exactly-once log in the parent memory; ThreadSanitizer on the spawn path',
+            'Generated-input search over vectors (0-200 strings, 0..10^5 bytes, arbitrary non-NUL content), buffer placements, '
+            'clock ids (valid and invalid), random_get lengths 0..2^20, exit codes 0-255 and T x K concurrent spawns; each result '
+            'is compared with an explicit model (exact bytes / sandwich / fill + canaries / status / distinct ids + exactly-once '
+            'start calls through the parent memory).',
+            'thread-spawn schedules are real-thread samples + TSan, not harness-owned.', 'DESIGN.md section 7 C15'),
 }
 
 NOT_YET = {}
